@@ -42,7 +42,7 @@ class Probe:
             self.order.append('I')
             return orig(*a, **k)
         self.inner.step = counted
-        kw = dict(noise_multiplier=float(case['nm']), expected_batch_size=1, loss_reduction='sum')
+        kw = dict(noise_multiplier=float(case['nm']), expected_batch_size=1, loss_reduction='sum', secure_mode=bool(case.get('secure', False)))
         if v == 'ghost':
             self.gsm = GradSampleModuleFastGradientClipping(self.lin, loss_reduction='sum', max_grad_norm=10.0)
             self.opt = DPOptimizerFastGradientClipping(self.inner, max_grad_norm=10.0, **kw)
